@@ -903,7 +903,67 @@ def unit_bounded_after_duplicate(U):
                 fails.append({"case": {"merge_strategy": strat, "via": via}, "expected": "no exception", "observed": repr(e)})
     U.bounded_result("C05.bounded.after_duplicate", "the Parent links of the lines that follow a resolved duplicate are recorded", "4 strategies x create_db / update", cases, fails)
 
-UNITS = [("bounded.after_duplicate", unit_bounded_after_duplicate), ("bounded.explicit", unit_bounded_explicit), ("do_merge", unit_do_merge), ("candidates", unit_candidates), ("merge_candidate", unit_merge_candidate), ("get_feature", unit_get_feature), ("collision_merge", unit_collision_merge), ("merge_no_candidate", unit_merge_no_candidate), ("collision", unit_collision), ("collision_each", unit_collision_each), ("init", unit_init), ("bounded.merge", unit_bounded_merge), ("bounded.force_fields", unit_bounded_force_fields)]
+def unit_bounded_repeats(U):
+    """Bounded: 'merge' unions the attribute values WITHOUT repeats also when a line carries the same value twice under one
+    key itself - the stored line, the arriving line, or both (GFF3 comma lists and GTF repeated keys; create_db / update)"""
+    fails, cases = [], 0
+    gff = lambda note: "c\ts\tgene\t1\t9\t.\t+\t.\tID=k;Note=%s" % note
+    gtf = lambda tags: "c\ts\texon\t1\t9\t.\t+\t.\tgene_id \"g\"; transcript_id \"t\"; %s" % " ".join('tag "%s";' % t for t in tags)
+    pairs = [(["a"], ["b", "b", "a"]), (["a", "a"], ["b"]), (["x", "x"], ["x", "y", "y"]), (["a"], ["a", "a"]), (["p", "q"], ["q", "q", "p", "r"])]
+    for fmt in ("gff3", "gtf"):
+        for first, second in pairs:
+            for via in ("create_db", "update"):
+                cases += 1
+                if fmt == "gff3":
+                    l1, l2, key, kw, fid = gff(",".join(first)), gff(",".join(second)), "Note", {}, "k"
+                else:
+                    l1, l2, key, kw, fid = gtf(first), gtf(second), "tag", {"id_spec": {"exon": "transcript_id"}, "disable_infer_genes": True, "disable_infer_transcripts": True}, "t"
+                case = {"format": fmt, "stored line": l1, "arriving line": l2, "via": via}
+                try:
+                    if via == "create_db":
+                        db = gffutils.create_db(l1 + "\n" + l2 + "\n", ":memory:", from_string=True, merge_strategy="merge", **kw)
+                    else:
+                        db = gffutils.create_db(l1 + "\n", ":memory:", from_string=True, merge_strategy="merge", **kw)
+                        db.update(l2 + "\n", from_string=True, merge_strategy="merge", make_backup=False, **kw)
+                    got = list(db[fid].attributes[key])
+                    exp = sorted(set(first) | set(second))
+                    if sorted(got) != exp or db.count_features_of_type() != 1:
+                        fails.append(dict(case, expected={key: exp, "features": 1}, observed={key: got, "features": db.count_features_of_type()}))
+                except Exception as e:
+                    fails.append(dict(case, expected="merged", observed=repr(e)))
+    U.bounded_result("C05.bounded.repeats_within_a_line", "'merge' stores each value of the union once, whichever line repeats it", "5 value-list pairs x GFF3 / GTF x create_db / update", cases, fails)
+
+def unit_bounded_numbered_keys(U):
+    """Bounded: the key handed out for a later arrival is '<key>_<n>' of the COLLIDING key, whatever that key looks like -
+    also a key that itself ends in '_<digits>' (mRNA_7 -> mRNA_7_1, mRNA_7_2), with and without a feature stored under the
+    stem's own numbering, under create_unique and under the no-candidate fallback of merge, in create_db and update"""
+    fails, cases = [], 0
+    for key in ("mRNA_7", "g_2", "e_10", "x_0", "a_b_3"):
+        stem = key.rsplit("_", 1)[0]
+        for strat in ("create_unique", "merge"):
+            for with_stem_feature in (False, True):
+                for via in ("create_db", "update"):
+                    cases += 1
+                    feats = [mkfeat(key, start=1), mkfeat(key, start=5), mkfeat(key, start=7)]
+                    if with_stem_feature:
+                        feats.insert(0, mkfeat(stem + "_1", start=3))
+                    exp = sorted([f.attributes["ID"][0] for f in feats[:-2]] + [key + "_1", key + "_2"])
+                    case = {"lines": [str(f) for f in feats], "merge_strategy": strat, "via": via}
+                    try:
+                        if via == "create_db":
+                            db = gffutils.create_db([copy_feature(f) for f in feats], ":memory:", merge_strategy=strat)
+                        else:
+                            db = gffutils.create_db([copy_feature(f) for f in feats[:-1]], ":memory:", merge_strategy=strat)
+                            db.update([copy_feature(feats[-1])], merge_strategy=strat, make_backup=False)
+                        got = sorted(f.id for f in db.all_features())
+                        starts = {f.id: f.start for f in db.all_features()}
+                        if got != exp or (starts.get(key), starts.get(key + "_1"), starts.get(key + "_2")) != (1, 5, 7):
+                            fails.append(dict(case, expected={"keys": exp, "starts": {key: 1, key + "_1": 5, key + "_2": 7}}, observed={"keys": got, "starts": starts}))
+                    except Exception as e:
+                        fails.append(dict(case, expected=exp, observed=repr(e)))
+    U.bounded_result("C05.bounded.numbered_keys", "later arrivals of a key that ends in '_<digits>' are filed under '<that key>_<n>'", "5 keys x create_unique / merge fallback x with / without a feature '<stem>_1' x create_db / update", cases, fails)
+
+UNITS = [("bounded.numbered_keys", unit_bounded_numbered_keys), ("bounded.repeats", unit_bounded_repeats), ("bounded.after_duplicate", unit_bounded_after_duplicate), ("bounded.explicit", unit_bounded_explicit), ("do_merge", unit_do_merge), ("candidates", unit_candidates), ("merge_candidate", unit_merge_candidate), ("get_feature", unit_get_feature), ("collision_merge", unit_collision_merge), ("merge_no_candidate", unit_merge_no_candidate), ("collision", unit_collision), ("collision_each", unit_collision_each), ("init", unit_init), ("bounded.merge", unit_bounded_merge), ("bounded.force_fields", unit_bounded_force_fields)]
 
 
 def replay_known(entry):
